@@ -1,4 +1,5 @@
 import Py4hwV.Proofs.C02Power
+import Py4hwV.Proofs.C02Run
 /-
   C02 - Python-to-Verilog transpilation preserves the behaviour of behavioural blocks.
 
@@ -746,5 +747,43 @@ def fs0 : FStore := { info := typing c0, val := fun n => if n == "s" then ⟨32,
 theorem guard_fallthrough_counterexample :
     (match exec c0 none guardStmt st0 with | .ok s => s.att "s" | .error _ => none) = some 2 ∧
     (rdF (V.exec rdF wrF none (trS c0 guardStmt) ⟨fs0, []⟩).st).val "s" = ⟨32, 0, true⟩ := ⟨by decide, by decide⟩
+
+/-! ## the interpreter that is actually run on the emitted text (Verilog/Run.lean) -/
+
+/-- `V.Store` (hash maps) has the write laws the statement theorems need: declarations never change, a normal-form value of the
+    declared width (all `V.exec` ever writes: `evalAssign_norm`) is read back, other names are untouched. -/
+theorem store_write_laws : WOK V.Store.rd V.Store.wr := store_wok
+
+/-- SEQUENTIAL CLAUSE OVER THE INTERPRETER'S OWN STORE AND SCHEDULING (partial: see below).  `m` is any state of the interpreter
+    (`V.Sim`) whose flattened design is the single block `always @(posedge clk) <translated body>` (`SeqSim`), with the clock at 1, and
+    whose store agrees with a functional store `f` related to the Python object state `s` (`CRel`, e.g. power-up: `powerup_crel_full`)
+    on every name of the body and every port.  Then for EVERY bench session - per cycle some inputs driven with `Sim.setIn` (the
+    driver's `set`), then `Sim.cycle` (the driver's `step 1`: falling edge, rising edge, posedge detection, delta loop, settling,
+    hash-map store) - on which the Python object runs inside the domain: the interpreter's store holds the Python value of every
+    port and of every state variable the body mentions.
+    PARTIAL: not proved here are (a) `flatten [trModule c]` has the `SeqSim` shape and (b) `mkSim0` + the `initial` block establish
+    the agreement at power-up (the abstract-store version is `initial_block_establishes_powerup`); both are executed, not assumed, by
+    the differential (`Drv/C02V.lean` runs `V.session` = `mkSim0` / `Sim.setIn` / `Sim.cycle` on the parsed real text).  Combinational
+    bodies (`always @(*)`, re-activation until the store settles) are not covered. -/
+theorem transpile_seq_sound_run_partial (c : ClassD) (hok : okSg true c c.body = true) (hD : ¬ DNames c c.clk)
+    (m : V.Sim) (H : SeqSim m c.clk (trS c c.body)) (hclk : V.bitOf m.st c.clk = some 1)
+    (f : FS) (s : St) (hC : CRel c rdFS s f) (hE : EqOn (DNames c) (rdFS f) m.st.rd)
+    (h : List (List (String × Nat))) (hp : ∀ asg, asg ∈ h → ∀ nv, nv ∈ asg → isPort c nv.1 = true)
+    (s' : St) (hr : runD c s (h.map natAsg) = some s') :
+    (∀ n v p, s'.wire n = some v → c.port? n = some p →
+        (h.foldl V.Sim.stepWith m).st.rd.val n = ⟨p.width, v.toNat, true⟩) ∧
+    (∀ n v, s'.att n = some v → inDom v = true → isPort c n = false → n ∈ idsS (trS c c.body) →
+        (h.foldl V.Sim.stepWith m).st.rd.val n = ⟨32, v.toNat, true⟩) := by
+  have R := transpile_sound_all fs_laws c true hok (h.map natAsg) s s' f hC hr
+  have E := run_history c hD h f m H hclk hC.typed hE hp
+  refine ⟨?_, ?_⟩
+  · intro n v p hw hpp
+    have := (R.agree.wire n v p hw hpp).2.2
+    rw [← (E n (Or.inr (by simp [isPort, hpp]))).2]; exact this
+  · intro n v ha hd hpn hn
+    have hst : isState c n = true := R.attDom n v ha
+    have hatt : (s'.env c).att n = some v := by simp [St.env, ha]
+    have := R.agree.att n v hatt hd hpn (Or.inl hst)
+    rw [← (E n (Or.inl hn)).2]; exact this
 
 end C02
